@@ -28,9 +28,10 @@ ASSUMPTIONS = ["nesting depth of generated ASTs stays below 40 so that eval/pick
 HOSTILE_STR = [
     '"plain"', '"q\\"uote"', '"back\\\\slash"', '"\\x41\\101\\n"', '"café 中"', '"\'"', 'L"w\\"q"', '"%s\\t"', '"]\\n["',
     '"),\\n ("', '"coord=None"', 'u8"\\\\\\""', '"\\\\n"', '""',
+    '"smile \U0001F600"', 'U"\U00020000 \U0001D4B6"', '"\x7f\x01 ctl"', '"\u2028 sep \xad"',
 ]  # fmt: skip
-HOSTILE_CHR = ["'\\''", "'\\\\'", "'\"'", "L'\\n'", "'é'", "'\\x7f'"]
-HOSTILE_PRAGMA = ['weird "text" \\ \'q\'', "café", "])\n"[:2], "a\\", "  "]
+HOSTILE_CHR = ["'\\''", "'\\\\'", "'\"'", "L'\\n'", "'é'", "'\\x7f'", "L'\U00020000'", "U'\U0001F600'"]
+HOSTILE_PRAGMA = ['weird "text" \\ \'q\'', "café", "])\n"[:2], "a\\", "  ", "emoji \U0001F600 \U0001D4B6"]
 
 
 def hostile(m, c):
